@@ -70,11 +70,11 @@ reg('C09', engine='pysym + crosshair',
          'bounded (4 quick / 6 thorough).',
     technique='symbolic execution of the real Python function via proxy values + CrossHair, SMT (z3 Int/BV/strings)')
 
-reg('C35', engine='crosshair',
-    text='CrossHair executes the real flags_from_pkgconfig/merge_flags/call symbolically on symbolic token lists, '
-         'symbolic exit status and output bytes; each property must come back "Confirmed over all paths" within '
-         'the stated size bounds, counterexamples are replayed in plain CPython.',
-    note='Trusted: CrossHair 0.0.110 + z3, the reference partition in harness/C35.py; pkg-config output modelled '
-         'as its token list (str.split contract), subprocess.Popen stubbed. Bounds: 2-3 tokens of 3-4 characters, '
-         '2 packages.',
-    technique='symbolic execution of the real Python functions (CrossHair, z3 strings/sequences)')
+reg('C35', engine='pysym',
+    text='The real flags_from_pkgconfig/merge_flags/call are executed on symbolic tokens (SymStr proxies: '
+         'every ASCII string of each length), symbolic exit status and a decode() that may fail; every decision '
+         'the code takes forks through z3 and the result is proved equal to an independent reference translation.',
+    note='Trusted: pysym/SymStr proxy semantics (validated against CPython), the reference in harness/C35.py; '
+         'pkg-config output modelled as its token list, subprocess.Popen stubbed. Bounds: <=2+1(2) tokens of <=3(4) '
+         'characters per package, 2 packages.',
+    technique='symbolic execution of the real Python functions via proxy strings, SMT (z3 bit-vectors)')
